@@ -24,16 +24,19 @@ EXPECTED_EXTRACTABLE = [
     'degrees_und', 'degrees_dir', 'strengths_und', 'strengths_dir', 'density_und', 'density_dir',
     'clustering_coef_bd', 'clustering_coef_wd', 'clustering_coef_wu',
     'transitivity_bu', 'transitivity_bd', 'transitivity_wu', 'transitivity_wd',
-    'modularity_und', 'modularity_dir', 'modularity_und_sign']
+    'modularity_und', 'modularity_dir', 'modularity_und_sign',
+    'pagerank_centrality', 'diffusion_efficiency', 'subgraph_centrality', 'eigenvector_centrality_und']
 MODULE_OF = {'bct/algorithms/degree.py': 'bct.algorithms.degree', 'bct/algorithms/physical_connectivity.py': 'bct.algorithms.physical_connectivity',
              'bct/algorithms/clustering.py': 'bct.algorithms.clustering', 'bct/algorithms/modularity.py': 'bct.algorithms.modularity',
-             'bct/utils/miscellaneous_utilities.py': 'bct.utils.miscellaneous_utilities'}
+             'bct/utils/miscellaneous_utilities.py': 'bct.utils.miscellaneous_utilities',
+             'bct/algorithms/centrality.py': 'bct.algorithms.centrality', 'bct/algorithms/efficiency.py': 'bct.algorithms.efficiency'}
 EXTRA_FUNCTION_FILES = {'cuberoot': 'bct/utils/miscellaneous_utilities.py'}
 
 DROPPED = [
     "lean extraction: float64 is ℝ (no rounding); numpy x/0 = ±inf/nan is Lean's x/0 = 0; the only infinity modelled is the masking idiom K[np.where(c == 0)] = np.inf",
     "lean extraction: dtype, decorators, docstrings, imports, .copy()/aliasing (value semantics; in-place stores through views or into a caller's array are refused), shape errors and exceptions are dropped",
     "lean extraction: cuberoot is an abstract cbrt : ℝ → ℝ with cbrt x ^ 3 = x, cbrt 0 = 0, cbrt 1 = 1 (its source must still read sign(x)*|x|^(1/3)); np.unique(., return_inverse=True)[1] is an abstract `canon` with canon c x = canon c y ↔ c x = c y",
+    "lean extraction (C18): scipy.linalg.solve / expm / eig, np.argmax and the callee mean_first_passage_time are ABSTRACT functions; their contracts (B·r0 = b for the one call made; eigen-equation; argmax is a largest entry) are explicit hypotheses of the theorems that use them — assumed contracts on a dependency; complex parts of eig results are dropped (np.real is the identity)",
     "lean extraction: modularity_und/_dir: only the given-partition path (kci is a label vector); modularity_und_sign: qtype='sta', the loop-accumulated Kn0/Kn1 are free parameters",
 ]
 
@@ -165,6 +168,9 @@ def build_and_check(repo=None, keep=False, workdir=None):
         elif not ax <= ALLOWED_AXIOMS:
             bad = sorted(ax - ALLOWED_AXIOMS)
             failing = sorted(nm for nm in errs if nm != name)
+            span_text = '\n'.join(proofs.split('\n')[a - 1:b])
+            mentioned = [nm for nm in failing if re.search(r'(?<![A-Za-z0-9_\.\'])%s(?![A-Za-z0-9_\'])' % re.escape(nm), span_text)]
+            failing = mentioned or failing
             st, detail = 'open', 'depends on %s (a declaration it uses failed: %s)' % (bad, failing[:6])
         elif banned:
             st, detail = 'open', 'banned constructs in the proof files: %s' % banned
